@@ -130,7 +130,7 @@ func c07KeyScenario(c *choice.Ctx, rep *report.R) {
 				fail("setup", "first query was not forwarded")
 				return
 			}
-			time.Sleep(2300 * time.Millisecond)
+			hsleep(2300 * time.Millisecond)
 			r2, n2 := ask(second, 0x0702)
 			if r2 == nil {
 				fail("setup", "no response to the second query")
@@ -272,7 +272,7 @@ func c07Fidelity(c *choice.Ctx, rep *report.R, maxRec int) {
 	}
 	sc.SendMsg(mk(0x0711))
 	wait()
-	time.Sleep(2300 * time.Millisecond)
+	hsleep(2300 * time.Millisecond)
 	sc.SendMsg(mk(0x0722))
 	wait()
 	rs := sc.Responses()
